@@ -237,8 +237,8 @@ void obbBody(vf::Ctx & c)
   for (size_t i = 0; i < D; ++i) {
     LD h = aabb.getHalfWidthExtents()[i];
     c.maxStat("aabb-tightness-residual/eps*scale", static_cast<double>(fabsl(h - reach[i]) / (eps * scale)));
-    c.check(h >= reach[i] - tol, vf::fmt("derived AABB half extent %.9Lg along axis %zu does not contain a corner reaching %.9Lg", h, i, reach[i]));
-    c.check(h <= reach[i] + tol, vf::fmt("derived AABB half extent %.9Lg along axis %zu is not tight (farthest corner %.9Lg)", h, i, reach[i]));
+    VF_CHECK(c, h >= reach[i] - tol, "derived AABB half extent %.9Lg along axis %zu does not contain a corner reaching %.9Lg", h, i, reach[i]);
+    VF_CHECK(c, h <= reach[i] + tol, "derived AABB half extent %.9Lg along axis %zu is not tight (farthest corner %.9Lg)", h, i, reach[i]);
   }
   // the query point, if inside the OBB by a margin, is inside the derived AABB
   if (expectInside && !boundary && exact) {c.check(aabb.isInside(p), "point inside the oriented box lies outside its derived AABB");}
@@ -396,19 +396,19 @@ void preconditionerOn(vf::Ctx & c, const Cloud & cl, const char * typeName)
   const S eps = std::numeric_limits<S>::epsilon();
   S side = 0;
   for (int d = 0; d < SIZE; ++d) {
-    c.check(pre.getPointSetMin()[d] == mn[d], vf::fmt("%s: reported minimum along axis %d is %.9g, true minimum %.9g", typeName, d, static_cast<double>(pre.getPointSetMin()[d]), static_cast<double>(mn[d])));
-    c.check(pre.getPointSetMax()[d] == mx[d], vf::fmt("%s: reported maximum along axis %d is %.9g, true maximum %.9g", typeName, d, static_cast<double>(pre.getPointSetMax()[d]), static_cast<double>(mx[d])));
+    VF_CHECK(c, pre.getPointSetMin()[d] == mn[d], "%s: reported minimum along axis %d is %.9g, true minimum %.9g", typeName, d, static_cast<double>(pre.getPointSetMin()[d]), static_cast<double>(mn[d]));
+    VF_CHECK(c, pre.getPointSetMax()[d] == mx[d], "%s: reported maximum along axis %d is %.9g, true maximum %.9g", typeName, d, static_cast<double>(pre.getPointSetMax()[d]), static_cast<double>(mx[d]));
     LD mean = sum[d] / static_cast<LD>(set.size());
     LD tol = static_cast<LD>(eps) * (static_cast<LD>(set.size()) + 4) * amax;
-    c.check(fabsl(pre.getPointSetMean()[d] - mean) <= tol, vf::fmt("%s: reported mean along axis %d is %.9g, centroid %.9Lg", typeName, d, static_cast<double>(pre.getPointSetMean()[d]), mean));
+    VF_CHECK(c, fabsl(pre.getPointSetMean()[d] - mean) <= tol, "%s: reported mean along axis %d is %.9g, centroid %.9Lg", typeName, d, static_cast<double>(pre.getPointSetMean()[d]), mean);
     side = std::max(side, static_cast<S>(mx[d] - mn[d]));
   }
   S sc = pre.getScale();
   if (side == S(0)) {
-    c.check(std::isinf(sc) && sc > 0, vf::fmt("%s: degenerate set: scale %.9g, expected 1/0 = +inf", typeName, static_cast<double>(sc)));
+    VF_CHECK(c, std::isinf(sc) && sc > 0, "%s: degenerate set: scale %.9g, expected 1/0 = +inf", typeName, static_cast<double>(sc));
   } else {
     S want = S(1) / side;
-    c.check(std::fabs(sc - want) <= 4 * eps * want, vf::fmt("%s: scale %.9g, reciprocal of the largest side is %.9g", typeName, static_cast<double>(sc), static_cast<double>(want)));
+    VF_CHECK(c, std::fabs(sc - want) <= 4 * eps * want, "%s: scale %.9g, reciprocal of the largest side is %.9g", typeName, static_cast<double>(sc), static_cast<double>(want));
   }
 }
 
@@ -448,10 +448,10 @@ void containerExtents(vf::Ctx & c, const Cloud & cl, const char * what)
     S tmn = pts.front()[d], tmx = pts.front()[d], amax = 0;
     LD sum = 0;
     for (const auto & a : pts) {tmn = std::min(tmn, a[d]); tmx = std::max(tmx, a[d]); sum += a[d]; amax = std::max(amax, std::fabs(a[d]));}
-    c.check(mn[d] == tmn, vf::fmt("%s: min() axis %d gives %.9g, true %.9g", what, d, static_cast<double>(mn[d]), static_cast<double>(tmn)));
-    c.check(mx[d] == tmx, vf::fmt("%s: max() axis %d gives %.9g, true %.9g", what, d, static_cast<double>(mx[d]), static_cast<double>(tmx)));
+    VF_CHECK(c, mn[d] == tmn, "%s: min() axis %d gives %.9g, true %.9g", what, d, static_cast<double>(mn[d]), static_cast<double>(tmn));
+    VF_CHECK(c, mx[d] == tmx, "%s: max() axis %d gives %.9g, true %.9g", what, d, static_cast<double>(mx[d]), static_cast<double>(tmx));
     LD tol = static_cast<LD>(eps) * (static_cast<LD>(pts.size()) + 4) * amax;
-    c.check(fabsl(me[d] - sum / static_cast<LD>(pts.size())) <= tol, vf::fmt("%s: mean() axis %d gives %.9g", what, d, static_cast<double>(me[d])));
+    VF_CHECK(c, fabsl(me[d] - sum / static_cast<LD>(pts.size())) <= tol, "%s: mean() axis %d gives %.9g", what, d, static_cast<double>(me[d]));
   }
 }
 
@@ -474,7 +474,7 @@ void containerMeanOnly(vf::Ctx & c, const Cloud & cl, const char * what)
     S amax = 0;
     for (const auto & a : pts) {sum += a[d]; amax = std::max(amax, std::fabs(a[d]));}
     LD tol = static_cast<LD>(eps) * (static_cast<LD>(pts.size()) + 4) * amax;
-    c.check(fabsl(me[d] - sum / static_cast<LD>(pts.size())) <= tol, vf::fmt("%s: mean() axis %d gives %.9g", what, d, static_cast<double>(me[d])));
+    VF_CHECK(c, fabsl(me[d] - sum / static_cast<LD>(pts.size())) <= tol, "%s: mean() axis %d gives %.9g", what, d, static_cast<double>(me[d]));
   }
 }
 
